@@ -8,9 +8,9 @@ CONSTANTS
   PageSizeRule = "le0"
   GuardLocation = TRUE
   GuardAlloc = TRUE
-  PageSizes <- PS1
+  PageSizes <- PS4
   MaxResp = 3
   MaxCalls = 4
-  Families = {"single"}
-  Level = "export"
+  Families = {"list"}
+  Level = "lite"
 INVARIANT Props
